@@ -25,6 +25,7 @@ S_CELLS = [
     ("o_us", "lambda: USref.uu() + USref.uc() + 1", True),
     ("o_us2", "lambda: USref.uu() + 2", True),          # through the uncached cells of the other space ONLY
     ("o_usw", "lambda: USref.w + 3", True),             # a reference of the other space, read by attribute
+    ("o_dcell", "lambda: DDref.dc() + 1", True),        # through a DERIVED uncached cells of another space
     ("o_dref", "lambda: DDref.dv + 1", True),           # a DERIVED reference of another space, read by attribute
 ]
 OBSERVERS = [n for n, _, _ in S_CELLS if n.startswith("o_")]
@@ -71,6 +72,7 @@ class Rich:
             S.USref = US
             DA, DB = m.new_space("DA"), m.new_space("DB")                 # two bases defining the same reference
             DA.dv, DB.dv = 1, 2
+            DB.new_cells("dc", formula="lambda: dv * 2", is_cached=False)    # DD.dc: derived and uncached
             S.DDref = self.DD = m.new_space("DD", bases=[DA, DB])
             Sub = self.Sub = S.new_space("Sub")
             Sub.z = vals["z"]
@@ -162,6 +164,8 @@ EDITS = [
     ("US.w = v (read by name by an uncached cells another space calls)", lambda r, v: setattr(r.m.US, "w", v)),   # 36
     ("del DA.dv (DD.dv now derives from DB)", lambda r, v: delattr(r.m.DA, "dv")),                          # 37
     ("DD.remove_bases(DA)", lambda r, v: r.m.DD.remove_bases(r.m.DA)),                                        # 38
+    ("US.uu.is_cached = True (uncached cells another space computed through)", lambda r, v: setattr(r.m.US.cells["uu"], "is_cached", True)),   # 39
+    ("DA.new_cells('dc') cached: DD.dc re-derives from it (was derived from the uncached DB.dc)", lambda r, v: r.m.DA.new_cells("dc", formula="lambda: dv * 3")),   # 40
 ]
 CRITICAL = [0, 1, 2, 3, 7, 12, 13, 14, 24, 29, 5, 23]
 
